@@ -46,6 +46,8 @@ def run(tier):
             (real, "large menu (mid families), 3 images each", [["--mode", "large", "--families", MID_FAMS, "--patterns", "U,M3", "--few-images"]]),
             (real, "fixed menu of 960 pseudo-random sparse graphs n=8..24 x 2 pseudo-random weightings, 3 images each (renumbering + insertion order), 6 variants",
              [["--mode", "large", "--families", lcg_menu((8, 10, 12, 14, 16, 18, 20, 24), (1.3, 1.6, 2.0), 40), "--patterns", "R9x2", "--few-images"]])]
+    plan += [(real, "fixed menu of 200 denser pseudo-random graphs n=18..24, m=3n (more than 128 candidate cycles) x 2 weightings in 1..30, 3 images each, 6 variants",
+              [["--mode", "large", "--families", lcg_menu((18, 20, 22, 24), (3.0,), 50), "--patterns", "R30x2", "--few-images"]])]
     if tier == "thorough":
         plan += [(real, "small G(5) x A2, menu renumberings/orders, few unions", [["--mode", "small", "--n", 5, "--alpha", "A2", "--perms", "menu", "--orders", "menu", "--unions", "few"]]),
                  (real, "small G(4) x A3, all transformations", [["--mode", "small", "--n", 4, "--alpha", "A3"]]),
